@@ -61,6 +61,9 @@ UNITS = [
     Unit("C10", "jsonargparse._core:ArgumentParser._parse_common", pc_setup, pc_post, pc_raises, expect_cover=("return", "raise:TypeError"),
          trusted=["validate(cfg) raises unless every key of cfg passes _check_value_key (C06 units)", "strip_meta returns a copy without meta keys (C08)"]),
 ]
+from contracts.adapt_arms import arms_units  # noqa: E402
+UNITS = UNITS + arms_units("C10")
+
 VERIFIED_CALLEES = ()
 LEVEL = "other"
 TECHNIQUE = "contract-based deductive verification of the validate-what-you-return call site (VCs from the real AST, ghost events) + bounded run-time contract: validate(result), parse_object(result) == result, dump-reparse-dump byte identity"
